@@ -333,7 +333,7 @@ func (e *Engine) funcsForProp(prop string) []string {
 		if fc.Extern {
 			continue
 		}
-		if fc.Flags["inline"] != nil {
+		if fc.Flags["inline"] != nil || fc.Flags["spawn_inline"] != nil {
 			continue // closure contracts flagged inline are checked inside their parent
 		}
 		if fc.Props[prop] {
